@@ -69,13 +69,13 @@ Proof. destruct rp as [|[f v] rp]; [trivial|]. intros H. left. exact H. Qed.
 Definition all_pairs (c : ctx) (hn bn tn : list tnode) (L : N) (csv : list N) : list (N * list N) :=
   (8, c_begin c) :: (9, itoa_N L) :: (P hn ++ P bn ++ P tn) ++ [(10, csv)].
 
-Lemma encode_shape c m hn bn tn md t10 :
+Lemma encode_shape_gen c m hn bn tn :
   render_ok c ->
   tree_of c (set_value (m_hdr m) Common_MsgType (m_type m)) = Some hn ->
   tree_of c (m_body m) = Some bn -> tree_of c (m_trl m) = Some tn ->
-  find_trait (g_traits (c_trailer c)) 10 = Some t10 -> msg_def c hn = Some md ->
-  wf_ctx c md = true ->
-  wf_nodes (c_header c) 2 hn = true -> wf_nodes (md_meta md) 0 bn = true -> wf_nodes (c_trailer c) 0 tn = true ->
+  is_ty c 8 ft_string = true -> is_int_field c 9 = true -> is_ty c 10 ft_string = true ->
+  val_ok (c_begin c) = true -> lenN (c_begin c) < 1000 ->
+  Forall pv (P hn ++ P bn ++ P tn) ->
   has_field (m_trl m) 10 = true ->
   match map_find 8 (mb_fields (set_value (m_hdr m) Common_MsgType (m_type m))),
         map_find 9 (mb_fields (set_value (m_hdr m) Common_MsgType (m_type m))) with
@@ -87,31 +87,19 @@ Lemma encode_shape c m hn bn tn md t10 :
   exists csv m',
     msg_encode c m = Ok (flat_map pbytes (all_pairs c hn bn tn (encoded_len c hn bn tn) csv), m') /\
     all_digits csv /\ lenN csv = 3 /\
-    dec_val csv 0 = Some (bytesumN (flat_map pbytes ((8, c_begin c) :: (9, itoa_N (encoded_len c hn bn tn)) :: P hn ++ P bn ++ P tn))).
+    dec_val csv 0 = Some (bytesumN (flat_map pbytes ((8, c_begin c) :: (9, itoa_N (encoded_len c hn bn tn)) :: P hn ++ P bn ++ P tn))) /\
+    csv = fmt_chksum (bytesumN (flat_map pbytes ((8, c_begin c) :: (9, itoa_N (encoded_len c hn bn tn)) :: P hn ++ P bn ++ P tn))).
 Proof.
-  intros [Rint Rstr] Eh Eb Et E10 Emd Hctx HwH HwB HwT Hh10 H89 Uh Ub Ut Hlen.
+  intros [Rint Rstr] Eh Eb Et T8 T9 T10 Hbeg Hbl1000 Hpv Hh10 H89 Uh Ub Ut Hlen.
   set (h0 := set_value (m_hdr m) Common_MsgType (m_type m)) in *.
   set (L := encoded_len c hn bn tn) in *.
-  unfold wf_ctx in Hctx. split_ands.
   destruct (map_find 8 (mb_fields h0)) as [bsv|] eqn:E8; [|discriminate].
   destruct (map_find 9 (mb_fields h0)) as [v9|] eqn:E9; [|discriminate].
   apply list_eqb_eq in H89.
-  assert (T8 : is_ty c 8 ft_string = true) by assumption.
-  assert (T9 : is_int_field c 9 = true) by assumption.
-  assert (T10 : is_ty c 10 ft_string = true) by assumption.
   assert (Hbody : flat_map nbytes hn ++ flat_map nbytes bn ++ flat_map nbytes tn = flat_map pbytes (P hn ++ P bn ++ P tn)).
   { rewrite !flat_map_app, !nodes_bytes_pairs. reflexivity. }
   assert (HL : lenN (flat_map pbytes (P hn ++ P bn ++ P tn)) = L).
   { rewrite <- Hbody, !lenN_app. unfold L, encoded_len. lia. }
-  (* all values are fine *)
-  assert (Hpv : Forall pv (P hn ++ P bn ++ P tn)).
-  { apply Forall_app. split; [eapply wf_pairs; [apply le_n|exact HwH]|].
-    apply Forall_app. split; [eapply wf_pairs; [apply le_n|exact HwB]|eapply wf_pairs; [apply le_n|exact HwT]]. }
-  assert (Hbeg : val_ok (c_begin c) = true).
-  { unfold val_ok. rewrite forallb_forall. intros x Hx.
-    match goal with H : forallb (fun b => b <? 256) (c_begin c) = true |- _ => rewrite forallb_forall in H; rewrite (H x Hx) end.
-    match goal with H : forallb (fun b => negb (b =? SOH)) (c_begin c) = true |- _ => rewrite forallb_forall in H; rewrite (H x Hx) end.
-    reflexivity. }
   set (prep := [(8, c_begin c); (9, itoa_N L)]).
   assert (Hpre : Forall pv prep).
   { constructor; [exact Hbeg|]. constructor; [apply digits_val_ok, itoa_digits|constructor]. }
@@ -125,7 +113,7 @@ Proof.
   { unfold mem. rewrite flat_map_app, lenN_app, HL. unfold prep. cbn [flat_map]. rewrite app_nil_r, lenN_app.
     unfold pbytes. cbn [fst snd]. rewrite !lenN_app. cbn [lenN]. rewrite !lenN_app. cbn [lenN].
     rewrite (itoa_small 8), (itoa_small 9) by lia. cbn [lenN]. rewrite len_digits_itoa by assumption.
-    assert (lenN (c_begin c) < 1000) by (apply N.ltb_lt; assumption). unfold W64. unfold len_digits. repeat destruct (_ <? _); lia. }
+    unfold W64. unfold len_digits. repeat destruct (_ <? _); lia. }
   specialize (Hck H64).
   destruct (calc_chksum (map Z.of_N mem) (Z.of_N (lenN mem)) 0 (-1)) as [[ck hull]|] eqn:Eck; [|discriminate].
   cbn [c07_ok] in Hck. apply andb_prop in Hck. destruct Hck as [Hck _]. apply Z.eqb_eq in Hck.
@@ -135,7 +123,7 @@ Proof.
   assert (Hck256 : Z.to_N ck < 256).
   { rewrite Hckv. unfold bytesumN. pose proof (Z.mod_pos_bound (bytesum (map Z.of_N mem)) 256 ltac:(lia)). lia. }
   destruct (fmt_chksum_spec (Z.to_N ck) Hck256) as (Hcd & Hcl & Hcv).
-  exists (fmt_chksum (Z.to_N ck)). eexists. split; [|split; [exact Hcd|split; [exact Hcl|rewrite Hcv, Hckv; reflexivity]]].
+  exists (fmt_chksum (Z.to_N ck)). eexists. split; [|split; [exact Hcd|split; [exact Hcl|split; [rewrite Hcv, Hckv; reflexivity|rewrite Hckv; reflexivity]]]].
   unfold msg_encode, msg_encode_parts. fold h0.
   rewrite (mb_encode_tree c h0 hn Eh), (mb_encode_tree c _ bn Eb), (mb_encode_tree c _ tn Et).
   rewrite Uh, Ub, Ut, !app_nil_r. cbn [bind].
@@ -165,6 +153,40 @@ Proof.
   f_equal. f_equal. unfold all_pairs. cbn [flat_map].
   rewrite (flat_map_app pbytes (P hn ++ P bn ++ P tn) [(10, fmt_chksum (Z.to_N ck))]). cbn [flat_map]. rewrite app_nil_r.
   unfold pre, pbytes. cbn [fst snd]. rewrite <- !app_assoc. reflexivity.
+Qed.
+
+Lemma encode_shape c m hn bn tn md t10 :
+  render_ok c ->
+  tree_of c (set_value (m_hdr m) Common_MsgType (m_type m)) = Some hn ->
+  tree_of c (m_body m) = Some bn -> tree_of c (m_trl m) = Some tn ->
+  find_trait (g_traits (c_trailer c)) 10 = Some t10 -> msg_def c hn = Some md ->
+  wf_ctx c md = true ->
+  wf_nodes (c_header c) 2 hn = true -> wf_nodes (md_meta md) 0 bn = true -> wf_nodes (c_trailer c) 0 tn = true ->
+  has_field (m_trl m) 10 = true ->
+  match map_find 8 (mb_fields (set_value (m_hdr m) Common_MsgType (m_type m))),
+        map_find 9 (mb_fields (set_value (m_hdr m) Common_MsgType (m_type m))) with
+  | Some bsv, Some _ => list_eqb (c_render c ft_string bsv) (c_begin c)
+  | _, _ => false
+  end = true ->
+  mb_unknown (set_value (m_hdr m) Common_MsgType (m_type m)) = [] -> mb_unknown (m_body m) = [] -> mb_unknown (m_trl m) = [] ->
+  encoded_len c hn bn tn < 10000000 ->
+  exists csv m',
+    msg_encode c m = Ok (flat_map pbytes (all_pairs c hn bn tn (encoded_len c hn bn tn) csv), m') /\
+    all_digits csv /\ lenN csv = 3 /\
+    dec_val csv 0 = Some (bytesumN (flat_map pbytes ((8, c_begin c) :: (9, itoa_N (encoded_len c hn bn tn)) :: P hn ++ P bn ++ P tn))) /\
+    csv = fmt_chksum (bytesumN (flat_map pbytes ((8, c_begin c) :: (9, itoa_N (encoded_len c hn bn tn)) :: P hn ++ P bn ++ P tn))).
+Proof.
+  intros HR Eh Eb Et E10 Emd Hctx HwH HwB HwT Hh10 H89 Uh Ub Ut Hlen.
+  unfold wf_ctx in Hctx. split_ands.
+  assert (Hbeg : val_ok (c_begin c) = true).
+  { unfold val_ok. rewrite forallb_forall. intros x Hx.
+    match goal with H : forallb (fun b => b <? 256) (c_begin c) = true |- _ => rewrite forallb_forall in H; rewrite (H x Hx) end.
+    match goal with H : forallb (fun b => negb (b =? SOH)) (c_begin c) = true |- _ => rewrite forallb_forall in H; rewrite (H x Hx) end.
+    reflexivity. }
+  apply (encode_shape_gen c m hn bn tn HR Eh Eb Et); try assumption.
+  - apply N.ltb_lt. assumption.
+  - apply Forall_app. split; [eapply wf_pairs; [apply le_n|exact HwH]|].
+    apply Forall_app. split; [eapply wf_pairs; [apply le_n|exact HwB]|eapply wf_pairs; [apply le_n|exact HwT]].
 Qed.
 
 (* ---------------------------------------------------------------- the validator accepts it *)
@@ -320,7 +342,7 @@ Proof.
   destruct (mb_unknown (m_body m)) eqn:Ub; [|discriminate].
   destruct (mb_unknown (m_trl m)) eqn:Ut; [|discriminate].
   destruct (encode_shape c m hn bn tn md t10 HR Eh Eb Et E10 Emd Hctx HwH HwB HwT Hh10 H89 Uh Ub Ut Hlen)
-    as (csv & m' & Henc & Hcd & Hcl & Hcv).
+    as (csv & m' & Henc & Hcd & Hcl & Hcv & _).
   exists (flat_map pbytes (all_pairs c hn bn tn (encoded_len c hn bn tn) csv)), m'. split; [exact Henc|].
   apply (wire_ok_shape c hn bn tn md t10 csv E10 Emd Hctx HwH HwB HwT Hlk Hlen Hcd Hcl Hcv).
 Qed.
